@@ -745,3 +745,11 @@ func funcValueThroughStack(v ssa.Value, stack []*ssa.Call, depth int) *ssa.Funct
 	}
 	return nil
 }
+
+// lastInstr: the terminator of a block (nil for an empty block).
+func lastInstr(b *ssa.BasicBlock) ssa.Instruction {
+	if len(b.Instrs) == 0 {
+		return nil
+	}
+	return b.Instrs[len(b.Instrs)-1]
+}
